@@ -381,6 +381,7 @@ void profile_cfg_more(const std::string &prof, uint64_t seed, RunCfg &c, Rng &r)
       c.set_domains = 0;   // c.domains stays: it is what the reference expects
     }
     c.min_delay = 200; c.max_delay = 3000;
+    if (r.chance(0.35)) c.knobs["c12_reload"] = 1;   // the system configuration is rewritten and reloaded while the channel lives
   } else if (prof == "C05") {
     c.allow_cancel_in_cb = 0;
     c.beh_w = {70, 3, 1, 0, 2, 1, 6, 8, 6, 2, 1, 0, 1, 1, 0};
@@ -560,7 +561,8 @@ bool profile_plan_more(const RunCfg &c, Rng &r, std::vector<Step> &plan) {
     return true;
   }
   if (p == "C12") {
-    gen(c, r, plan, weights({{S_REQ, 30}, {S_ADV, 70}}), 20, 120);
+    if (c.knob("c12_reload", 0)) gen(c, r, plan, weights({{S_REQ, 30}, {S_ADV, 62}, {S_FILE, 4}, {S_REINIT, 4}}), 20, 120);
+    else gen(c, r, plan, weights({{S_REQ, 30}, {S_ADV, 70}}), 20, 120);
     for (auto &s : plan) { if (s.k == S_REQ) s.d = (s.d / R_NREACT) * R_NREACT + R_NONE; if (s.k == S_ADV) { s.a = 0; s.b = 0; } }   // a well-behaved loop: outcomes per candidate stay definite
     return true;
   }
@@ -1345,6 +1347,61 @@ static void c12_walk(const Run &run, const std::vector<std::string> &cands, size
   }
   C12Alt a; a.wire = wire; a.status = {st}; out.push_back(a);
 }
+// C12 with reloads: the settings the system configuration supplies can change while the channel lives (rewritten resolv.conf,
+// then ares_reinit); a search uses the settings in force when it was submitted
+struct C12Settings { size_t ndots; std::vector<std::string> domains; };
+struct C12File { int ndots = -1; bool has_search = false; std::vector<std::string> search; std::string text; };
+static std::vector<std::pair<int, C12Settings>> g_c12_hist;   // (first request token, settings in force from then on)
+static C12File g_c12_file;                                      // what the virtual resolv.conf says right now
+static int g_c12_variant = 0;
+static bool g_c12_search_seen = false;                          // a search line has been in force (it is then kept: a vanished line is KF-C16-1 territory)
+static int64_t g_c12_reinits = 0;
+static C12File c12_file_variant(const RunCfg &c, int variant, bool must_search) {
+  C12File f;
+  Rng r(hash_mix(c.seed * 0x9E3779B97F4A7C15ULL + 0xC12F, (uint64_t)variant));
+  static const char *doms[] = {"corp.test", "sub.corp.test", "lan.test", "deep.er.dom.test", "re.load.test"};
+  f.ndots = r.chance(0.5) ? -1 : (int)r.below(4);
+  f.has_search = must_search || r.chance(0.5);
+  if (f.has_search) { int n = 1 + (int)r.below(3); for (int i = 0; i < n; i++) { std::string d = doms[r.below(5)]; if (std::find(f.search.begin(), f.search.end(), d) == f.search.end()) f.search.push_back(d); } }
+  f.text = "nameserver 10.99.99.99\n";
+  if (f.ndots >= 0) f.text += "options ndots:" + std::to_string(f.ndots) + "\n";
+  if (f.has_search) { f.text += "search"; for (auto &d : f.search) f.text += " " + d; f.text += "\n"; }
+  return f;
+}
+static C12Settings c12_settings_now(const Run &run, const C12Settings &prev) {
+  const RunCfg &c = run.cfg;
+  C12Settings st = prev;
+  // ndots: the option if given, else RES_OPTIONS (read again at every reload), else the file, else 1
+  if (c.ndots >= 0) st.ndots = (size_t)c.ndots;
+  else if (c.env.count("RES_OPTIONS")) st.ndots = (size_t)c.knob("conf_ndots", 1);
+  else st.ndots = g_c12_file.ndots >= 0 ? (size_t)g_c12_file.ndots : 1;
+  // search list: the option if given (non-empty), else LOCALDOMAIN, else the file's search line, else what was there before
+  if (c.set_domains) st.domains = c.domains;   // the option bit was given (an empty list then means the host-name default, for good)
+  else if (c.env.count("LOCALDOMAIN")) st.domains = c.domains;
+  else if (g_c12_file.has_search) st.domains = g_c12_file.search;
+  return st;
+}
+static void c12_steps(Run &r, const Step &s) {
+  if (s.k != S_FILE) return;
+  g_c12_variant++;
+  bool sys_search = !(r.cfg.set_domains != 0) && !r.cfg.env.count("LOCALDOMAIN");
+  g_c12_file = c12_file_variant(r.cfg, g_c12_variant, sys_search && g_c12_search_seen);
+  W.set_file("/etc/resolv.conf", g_c12_file.text);
+  r.note("system_files_rewritten");
+}
+static void c12_after(Run &r) {
+  auto it = r.probe.find("reinit");
+  int64_t n = it == r.probe.end() ? 0 : it->second;
+  if (n == g_c12_reinits) return;
+  g_c12_reinits = n;
+  C12Settings st = c12_settings_now(r, g_c12_hist.back().second);
+  bool sys_search = !(r.cfg.set_domains != 0) && !r.cfg.env.count("LOCALDOMAIN");
+  if (sys_search && g_c12_file.has_search) g_c12_search_seen = true;
+  g_c12_hist.push_back({(int)r.reqs.size(), st});
+  r.note("search_settings_reloaded");
+  if (st.ndots != g_c12_hist[g_c12_hist.size() - 2].second.ndots) r.note("search_settings_reloaded_ndots_changed");
+  if (st.domains != g_c12_hist[g_c12_hist.size() - 2].second.domains) r.note("search_settings_reloaded_domains_changed");
+}
 static void c12_done(Run &run, Req &r) {
   if (run.cfg.profile != "C12") return;
   if (r.kind != K_SEARCH && r.kind != K_SEARCH_DNSREC && r.kind != K_GETADDRINFO && r.kind != K_GETHOSTBYNAME) return;
@@ -1354,10 +1411,13 @@ static void c12_done(Run &run, Req &r) {
   bool addr_kind = r.kind == K_GETADDRINFO || r.kind == K_GETHOSTBYNAME;
   if (addr_kind) qtype = r.family == AF_INET6 ? 28 : 1;
   // ---- reference candidate list (resolv.conf(5)) ----
-  std::vector<std::string> dom = run.cfg.domains;
+  // what was configured (option, or system configuration when the option is left out) when the request was submitted, not what
+  // the library says it uses
+  const C12Settings *in_force = &g_c12_hist.front().second;
+  for (auto &h : g_c12_hist) if (h.first <= r.token) in_force = &h.second;
+  std::vector<std::string> dom = in_force->domains;
   if (dom.empty()) dom.push_back("sim.test");           // default search list: the domain part of the host name
-  // what was configured (option, or system configuration when the option is left out), not what the library says it uses
-  size_t ndots = run.cfg.ndots >= 0 ? (size_t)run.cfg.ndots : (run.cfg.knob("conf_ndots", -1) >= 0 ? (size_t)run.cfg.knob("conf_ndots") : (size_t)1);
+  size_t ndots = in_force->ndots;
   std::vector<std::string> cands;
   const std::string &name = r.name;
   bool alias = false;
@@ -2201,7 +2261,17 @@ void profile_attach_more(Run &run) {
     };
   }
   if (p == "C12") {
+    run.extra_step = c12_steps;
+    { auto prev3 = run.after_step; run.after_step = [prev3](Run &r) { if (prev3) prev3(r); c12_after(r); }; }
     run.world_ready.push_back([](Run &r) {
+      g_c12_hist.clear(); g_c12_variant = 0; g_c12_reinits = 0; g_c12_file = C12File();
+      C12Settings st; st.ndots = r.cfg.ndots >= 0 ? (size_t)r.cfg.ndots : (r.cfg.knob("conf_ndots", -1) >= 0 ? (size_t)r.cfg.knob("conf_ndots") : (size_t)1);
+      st.domains = r.cfg.domains;
+      g_c12_hist.push_back({0, st});
+      g_c12_search_seen = r.cfg.knob("conf_search", 0) != 0 && !r.cfg.env.count("LOCALDOMAIN");
+      // what the initial resolv.conf says (the generator put the settings either there or into the environment)
+      if (r.cfg.knob("conf_ndots", -1) >= 0 && !r.cfg.env.count("RES_OPTIONS")) g_c12_file.ndots = (int)r.cfg.knob("conf_ndots");
+      if (g_c12_search_seen) { g_c12_file.has_search = true; g_c12_file.search = r.cfg.domains; }
       Run *rp = &r;
       W.beh_override = [rp](const Tx &t) { return t.msg.qd.empty() ? -1 : c12_beh_of(*rp, t.qname_lc, t.msg.qd[0].type); };
     });
